@@ -32,7 +32,7 @@ TIER_OPTS = {"quick": {"time_budget": 150}, "thorough": {"time_budget": 1200, "q
 
 def configs(tier):
     q = tier == "quick"
-    out = [("randsphere", 1), ("randsphere_default", 2), ("randsphere_bad",), ("randcap", False, False), ("randcap", True, False),
+    out = [("randsphere", 1), ("randsphere_default", 2), ("randsphere_bad",), ("randsphere_xyz", 1), ("randcap", False, False), ("randcap", True, False),
            ("randcap", True, True), ("randcap", False, True)]
     for nn in ((3, 4) if q else (3, 4, 5)):
         for kind in ("table", "func", "cumulative"):
@@ -159,6 +159,23 @@ def h_sky(cx, cfg):
             return
         cx.check("randsphere rejects ranges outside [0,360]", sym_and(lo >= 0, hi <= 360))
         cx.drop_obligations("domain conditions are decided in the randsphere configuration")
+        return
+    if what == "randsphere_xyz":
+        # system='xyz': the unit vector of a point of the box: z between the sines of the latitude limits,
+        # unit length, longitude (direction of (x, y)) inside the longitude limits
+        ralo, rahi = cx.real("ralo", 0, 360), cx.real("rahi", 0, 360)
+        cx.assume(ralo <= rahi)
+        dlo = trig.angle("dlo", -90, 90)
+        dhi = trig.angle("dhi", -90, 90)
+        cx.assume(dlo <= dhi)
+        x, y, z = co.randsphere(1, ra_range=[ralo, rahi], dec_range=[dlo, dhi], system="xyz", rng=rng)
+        x, y, z = x.tolist()[0], y.tolist()[0], z.tolist()[0]
+        slo, _c = trig.sincos(trig.deg2rad(dlo))
+        shi, _c = trig.sincos(trig.deg2rad(dhi))
+        zr = _leaf(z)
+        cx.check("randsphere(system='xyz'): z lies between the sines of the latitude limits", sym_and(zr >= slo, zr <= shi))
+        cx.check_eq("randsphere(system='xyz'): unit length", x * x + y * y + z * z, 1)
+        cx.drop_obligations("clip/arccos domain conditions are decided in the randsphere configuration")
         return
     if what in ("randsphere", "randsphere_default"):
         num = cfg[1]
@@ -478,6 +495,19 @@ def replay(cand):
     def mf(name, d=0.0):
         v = mdl.get(name)
         return model_float(v) if v is not None else d
+    if what == "randsphere_xyz":
+        boxes = [([mf("ralo", 10.0), mf("rahi", 20.0)], [max(-90.0, min(90.0, trig.model_angle(mdl, "dlo"))), max(-90.0, min(90.0, trig.model_angle(mdl, "dhi")))])]
+        boxes += [([0.0, 360.0], [18.0, 25.0]), ([100.0, 140.0], [-25.0, 15.0]), ([350.0, 360.0], [60.0, 90.0]), ([0.0, 5.0], [-90.0, -85.0])]
+        for rr, dr in boxes:
+            if rr[0] > rr[1] or dr[0] > dr[1]:
+                continue
+            x, y, z = co.randsphere(400, ra_range=rr, dec_range=dr, system="xyz", rng=np.random.RandomState(3))
+            lat = np.degrees(np.arctan2(z, np.hypot(x, y)))
+            lon = np.degrees(np.arctan2(y, x)) % 360.0
+            if np.abs(x * x + y * y + z * z - 1).max() > 1e-12 or lat.min() < dr[0] - 1e-6 or lat.max() > dr[1] + 1e-6 or \
+                    (rr[1] - rr[0] < 359.9 and (((lon - rr[0]) % 360.0).max() > (rr[1] - rr[0]) + 1e-6)):
+                return {"reproduced": True, "key": "randsphere:xyz-box", "what": "randsphere(400, ra_range=%r, dec_range=%r, system='xyz'): latitudes in [%r, %r]" % (rr, dr, lat.min(), lat.max())}
+        return no
     if what in ("randsphere", "randsphere_default", "randsphere_bad"):
         if what == "randsphere_bad":
             lo, hi = mf("lo"), mf("hi")
